@@ -601,9 +601,12 @@ KNOWN_CLASSES = {
     "repeated-clusters": "input cluster numbering with equal neighbours + a reordering shaper: merge_clusters after the reorder leaves "
                          "one of two characters that share an input cluster value in the other output cluster "
                          "(e.g. Malayalam <0D46:0,0D46:1,0D30:1> level 1 -> clusters 0,0,1)",
-    "arabic-pcm-stch": "Syriac abbreviation mark U+070F / Arabic prepended concatenation marks (U+0600..0605, 06DD, 0890, 0891, 08E2): "
-                       "ot_shaper_arabic.rs stretches / positions them over the following word (apply_stch) without setting any "
-                       "glyph flag, so cutting or re-joining next to them changes their glyphs' offsets",
+    "arabic-pcm-stch": "Syriac abbreviation mark U+070F / Arabic prepended concatenation marks (U+0600..0605, 06DD, 0890, 0891, 08E2) in a "
+                       "font with the `stch` feature: ot_shaper_arabic.rs::apply_stch tiles them over the following word and flags "
+                       "mark + word unsafe_to_break, but nothing marks the END of the word (or the mark itself when the word is empty) "
+                       "unsafe_to_concat (same in HarfBuzz): re-joining segments so that other word characters / marks come to stand "
+                       "next to the mark or its word changes the number and offsets of the tiles.  Decided per case "
+                       "(stch_attribution): no cut inside a mark + word span, only glyphs of marks whose context changed differ",
 }
 
 
@@ -621,15 +624,82 @@ KNOWN_CLASSES["syllabic-concat"] = (
     "(e.g. Thai <0E4C | 0E01 | 0E33> -> <0E4C,0E33>; Devanagari <091F,094D,0930,094D | 0020 | 091F,094D,0930>)")
 
 
-def known_class(s, kind="break"):
-    """signature of a documented finding class this shaping falls into, or None (= anything that differs is new)"""
+def stch_attribution(s, o):
+    """is this DIFF of the concat redistribution experiment the documented upstream behaviour of apply_stch — and nothing else?
+    Decided from the concrete cut and the concrete difference, not from the text alone:
+      (a) the text has a mark the font stretches (a PCM character whose cluster holds several glyphs in the whole result);
+      (b) NO cut lies inside a span apply_stch flags: for a mark at i, followed by further marks up to j and the word [j, e),
+          none of the boundaries i+1 .. e-1 is a segment start (a cut there means the flag apply_stch owes is missing) —
+          except in front of default ignorables that end the word (deleted before apply_stch runs when the font has no space);
+      (c) the redistribution gave some mark a different stretch context (neighbouring marks + following word) than it has in
+          the whole text — text moved next to a mark / its word — and
+      (d) every glyph that differs belongs to the cluster of such a mark."""
+    if not o or not o.get("pieces") or o.get("recon") is None or not o.get("whole"):
+        return False
+    text, n = s.text, len(s.text)
+    whole_cl = sorted({g[1] for g in o["whole"]})
+
+    def out_cluster(i):
+        below = [c for c in whole_cl if c <= s.clusters[i]]
+        return below[-1] if below else None
+
+    # a mark the font really stretches: a PCM character whose cluster holds several glyphs (the tiles) in the whole result
+    marks = [i for i, ch in enumerate(text) if ord(ch) in PCM and sum(1 for g in o["whole"] if g[1] == out_cluster(i)) >= 2]
+    if not marks:
+        return False
+    stretched = {text[i] for i in marks}
+    segs = sorted(o["pieces"])
+    cuts = {a for a, b in segs if a > 0}
+
+    def context(t, i):
+        a = i
+        while a > 0 and t[a - 1] in stretched: a -= 1
+        j = i + 1
+        while j < len(t) and t[j] in stretched: j += 1
+        e = j
+        while e < len(t) and t[e] not in stretched and is_word_char(t[e]): e += 1
+        return a, j, e
+
+    for i in marks:
+        _, _, e = context(text, i)
+        # default ignorables that END the word may have been deleted (hide_default_ignorables runs before apply_stch):
+        # a cut in front of them is a cut at the end of the word; kept ones are flagged like any word glyph
+        if any(i < p < e and not all(is_default_ignorable_cp(ord(c)) for c in text[p:e]) for p in cuts):
+            return False
+    seg_of = {}
+    for j, (a, b) in enumerate(segs):
+        for k in range(a, b):
+            seg_of[k] = j
+    par = {0: [k for k in range(n) if seg_of.get(k, -1) % 2 == 0], 1: [k for k in range(n) if seg_of.get(k, -1) % 2 == 1]}
+    changed = set()
+    for i in marks:
+        if i not in seg_of:
+            return False
+        idx = par[seg_of[i] % 2]
+        t2 = "".join(text[k] for k in idx)
+        a, j, e = context(text, i)
+        a2, j2, e2 = context(t2, idx.index(i))
+        if text[a:e] != t2[a2:e2] or i - a != idx.index(i) - a2:
+            if out_cluster(i) is not None:
+                changed.add(out_cluster(i))
+    if not changed:
+        return False
+    per = lambda gl: {c: [(g[0],) + tuple(g[3:]) for g in gl if g[1] == c] for c in {g[1] for g in gl}}
+    pw, pr = per(o["whole"]), per(o["recon"])
+    differing = {c for c in set(pw) | set(pr) if pw.get(c) != pr.get(c)}
+    return bool(differing) and differing <= changed
+
+
+def known_class(s, kind="break", o=None):
+    """signature of a documented finding class this DIFF falls into, or None (= anything that differs is new).
+    `o` = the verifier's outcome (cuts made, whole and reassembled glyphs): the class arabic-pcm-stch is decided from it."""
     if s.g["aat"]:
         return "aat"
     if shaped_reversed(s):
         return "reversed"
     if len(set(s.clusters)) < len(s.clusters):
         return "repeated-clusters"
-    if any(ord(c) in PCM for c in s.text):
+    if kind == "concat" and stch_attribution(s, o):
         return "arabic-pcm-stch"
     if kind == "concat" and (s.script or "").capitalize() in SYLLABIC_SCRIPTS:
         return "syllabic-concat"
@@ -1066,7 +1136,7 @@ KNOWN_CLASSES["nested-delete-drift"] = (
     "substitutes / deletes that glyph, which lies outside the span flagged by unsafe_to_break / unsafe_to_concat")
 
 
-def synth_known_class(s, kind="break"):
+def synth_known_class(s, kind="break", o=None):
     """synthetic fonts have no marks, digits, variation selectors and no reordering shaper.  Documented classes they can
     fall into, decided from the recipe alone (over-approximation; fonts of profile `core` are in none of them):
     ligatures under a reversed buffer (class `reversed`), multi-glyph sequences + deletion, records after a deleting record"""
@@ -1078,6 +1148,382 @@ def synth_known_class(s, kind="break"):
     if shaped_reversed(s) and g.get("has_lig"):
         return "reversed"
     return None
+
+
+# ------------------------------------------------------------------------------------------------
+# default ignorables inside the text: ot_shape.rs::hide_default_ignorables either turns them into the invisible (space)
+# glyph or — font without a glyph for U+0020, or REMOVE_DEFAULT_IGNORABLES — DELETES them after positioning through
+# buffer.rs::delete_glyphs_inplace, i.e. after the final reversal of a right-to-left run (descending clusters: the
+# "Merge cluster backward" branch hands the deleted glyph's flags to the run that takes over its cluster value).
+# Which flag an ignorable carries depends on how lookups treat it: ZWNJ is not skipped inside an input sequence, so a
+# ligature / context attempt that fails AT the ZWNJ flags a span ending on it; ZWJ and the other ignorables are skipped
+# (the span runs over them); in backtrack / lookahead all are skipped.
+
+DEFAULT_IGNORABLES = [0x200C] * 8 + [0x200D, 0x200D, 0x00AD, 0x034F, 0x2060, 0x200B, 0xFEFF, 0x061C, 0x180E]
+
+
+DI_RULE = ("synthetic GSUB fonts (tools/flagslib.py::di_recipe: 3-5 letters of Hebrew (3 in 4) / Latin; top-level ligature and single "
+           "substitutions, chaining contexts over them; 3 fonts in 4 WITHOUT a glyph for U+0020, so default ignorables are deleted by "
+           "delete_glyphs_inplace after positioning, i.e. after the final reversal of a right-to-left run) x texts of letters, of the "
+           "sequences the font's own lookups look for (whole / only the beginning / with an ignorable inside) and of default "
+           "ignorables (ZWNJ half of them; ZWJ, SHY, CGJ, WJ, ZWSP, BOM, ALM, MVS) after any chunk, several in a row, first x the "
+           "script's own direction (6 in 10) or l / r / t / b x levels 0/1 x PRESERVE / REMOVE_DEFAULT_IGNORABLES 1 in 6 each; ")
+
+
+def di_recipe(r):
+    """a fontbuild recipe: k letters of Latin / Hebrew (both native directions), a few extra glyphs; TOP-LEVEL ligature and
+    single substitutions plus chaining-context lookups (format 3, backtrack / lookahead) whose records call them; no
+    multi-glyph sequence, no deletion (so outside the classes deleted-flag-carrier / nested-delete-drift); 1 font in 4 has a
+    glyph for U+0020 (ignorables become invisible glyphs instead of being deleted), 1 in 4 real glyphs for ZWNJ / ZWJ"""
+    alpha = r.choice(["latin", "hebrew", "hebrew", "hebrew"])
+    first = ALPHABETS[alpha][0]
+    k = r.range(3, 5)
+    nx = r.range(2, 4)
+    n = 1 + k + nx
+    extra = list(range(k + 1, n))
+    cmap = {first + g - 1: g for g in range(1, k + 1)}
+    if r.chance(1, 4):
+        cmap[0x20] = n; n += 1
+    if r.chance(1, 4):
+        cmap[0x200C] = n; cmap[0x200D] = n + 1; n += 2
+    rec = {"num_glyphs": n, "cmap": cmap, "advances": [400 + 37 * g for g in range(n)]}
+    lookups = []
+    for _ in range(r.range(1, 3)):
+        if r.chance(2, 3):
+            cov = _letters_cov(r, k)
+            sets = [[{"components": [r.range(1, k) for _ in range(r.choice([1, 1, 2]))], "glyph": r.choice(extra)}
+                     for _ in range(r.range(1, 2))] for _ in cov]
+            lookups.append({"type": 4, "flag": 0, "subtables": [{"coverage": cov, "ligsets": sets}]})
+        else:
+            cov = _letters_cov(r, k)
+            lookups.append({"type": 1, "flag": 0, "subtables": [{"format": 2, "coverage": cov,
+                                                                 "subst": [r.range(1, n - 1) for _ in cov]}]})
+    nleaf = len(lookups)
+    top = list(range(nleaf)) if r.chance(3, 4) else [0]
+    for _ in range(r.range(0, 2)):
+        inp = [_letters_cov(r, k) for _ in range(r.range(1, 3))]
+        sub = {"format": 3, "backtrack": [_letters_cov(r, k, 1, 4) for _ in range(r.range(0, 2))], "coverages": inp,
+               "lookahead": [_letters_cov(r, k, 1, 4) for _ in range(r.range(0, 2))],
+               "lookups": [(r.below(len(inp)), r.below(nleaf))]}
+        top.append(len(lookups))
+        lookups.append({"type": 6, "flag": 0, "subtables": [sub]})
+    order = r.shuffle(top)
+    tags = r.sample(sorted(set(SYNTH_TAGS)), r.range(1, 2))
+    feats = []
+    for j, t in enumerate(tags):
+        mine = [x for i, x in enumerate(order) if i % len(tags) == j]
+        if mine:
+            feats.append({"tag": t, "lookups": mine})
+    rec["gsub"] = {"features": feats, "lookups": lookups}
+    return rec, alpha, k
+
+
+def di_groups(r, count, prefix="D"):
+    groups = []
+    while len(groups) < count:
+        rec, alpha, k = di_recipe(r)
+        try:
+            hx = fontbuild.hexfont(rec)
+        except fontbuild.FontBuildError:
+            continue
+        first, script, native = ALPHABETS[alpha]
+        fid = f"{prefix}{len(groups)}"
+        c = SynthCase()
+        c.name, c.font, c.index, c.text = fid, f"synthetic:{fid}", 0, ""
+        c.dir, c.script, c.lang, c.flags, c.level, c.feats = None, script, None, 0, 0, []
+        c.pre, c.post, c.extra, c.opts = "", "", [], ""
+        g = {"fid": fid, "reg": f"font {fid} {hx}", "cases": [c], "alphabet": [chr(first + j) for j in range(k)], "aat": False,
+             "synthetic": True, "profile": "default-ignorables", "recipe": rec, "native": native,
+             "has_space": 0x20 in rec["cmap"], "patterns": di_patterns(rec)}
+        g.update(recipe_traits(rec))
+        groups.append(g)
+    return groups
+
+
+def di_patterns(rec):
+    """glyph sequences the font's lookups look for: every ligature (first glyph + components) and one instance of
+    every chaining-context input sequence (with its backtrack before and lookahead after it)"""
+    pats = []
+    for lk in rec["gsub"]["lookups"]:
+        for st in lk["subtables"]:
+            if lk["type"] == 4:
+                for g, ls in zip(fontbuild.coverage_order(st["coverage"]), st["ligsets"]):
+                    for lig in ls:
+                        pats.append([g] + list(lig["components"]))
+            elif lk["type"] == 6 and st.get("format") == 3:
+                pats.append([c[0] for c in st["backtrack"][::-1]] + [c[-1] for c in st["coverages"]] + [c[0] for c in st["lookahead"]])
+    return pats
+
+
+def make_di_shaping(r, g, flags, preserve=4, remove=8):
+    """chunks of: a random letter; a sequence one of the font's lookups looks for (di_patterns) — whole, or only its
+    beginning, or with a default ignorable put inside it; default ignorables (also several in a row) after any chunk and
+    sometimes first.  So ignorables stand inside and right after ligature / context starts.  Mostly the script's own
+    direction, sometimes forced; PRESERVE / REMOVE_DEFAULT_IGNORABLES sometimes"""
+    inv = {gid: cp for cp, gid in g["recipe"]["cmap"].items()}
+    pats = [p for p in (g.get("patterns") or []) if all(x in inv for x in p)]
+    t = []
+    di = lambda: chr(r.choice(DEFAULT_IGNORABLES))
+    for _ in range(r.range(2, 5)):
+        k = r.below(5)
+        if k < 2 or not pats:
+            t.append(r.choice(g["alphabet"]))
+        else:
+            p = [chr(inv[x]) for x in r.choice(pats)]
+            if k == 2:
+                t += p
+            elif k == 3:
+                t += p[:r.range(1, len(p))]
+            else:
+                a = r.range(1, max(1, len(p) - 1))
+                t += p[:a] + [di()] + p[a:]
+        while r.chance(1, 3):
+            t.append(di())
+    if r.chance(1, 6):
+        t.insert(0, di())
+    t = t[:20]
+    s = Shaping()
+    s.g = g
+    s.case = g["cases"][0]
+    s.text = "".join(t)
+    s.clusters = rand_clusters(r, len(s.text), False)
+    s.req_dir = r.choice([g["native"]] * 6 + ["l", "r", "t", "b"])
+    s.dir = s.req_dir
+    s.script = s.case.script
+    s.flags = flags | r.choice([0, 3, 3, 3]) | r.choice([0, 0, 0, 0, preserve, remove])
+    s.level = r.choice((0, 1))
+    s.extra = []
+    s.pre, s.post = "", ""
+    s.subset = None
+    s.line = None
+    return s
+
+
+def di_known_class(s, kind="break", o=None):
+    return "reversed" if shaped_reversed(s) else None
+
+
+# ------------------------------------------------------------------------------------------------
+# the Arabic shaper's `stch` post-processing (ot_shaper_arabic.rs::record_stch / apply_stch): every glyph multiplied while the
+# `stch` feature ran becomes a fixed (even component) or repeating (odd component) tile; after positioning the repeating
+# tiles are copied until the tiles fill the summed advance of the WORD that follows the stretching mark in the text (glyphs of
+# word category — letters other than cased ones, marks, numbers, symbols — and default ignorables), and all tiles get
+# offsets.  So the tiles of a mark depend on every glyph of its word; apply_stch flags mark + word unsafe_to_break.
+
+STCH_SCRIPTS = {
+    # script: (font script tag, marks that fonts stretch, word characters, separators = not word category)
+    "Arab": ("arab", [0x0600, 0x0601, 0x0602, 0x0603, 0x0604, 0x0605, 0x06DD, 0x0890, 0x0891, 0x08E2],
+             [0x0660, 0x0661, 0x0662, 0x0031, 0x0032, 0x0621, 0x0627, 0x062F, 0x0648, 0x0628, 0x0644, 0x064E, 0x200C, 0x200D, 0x06F1],
+             [0x0020, 0x060C, 0x002E, 0x0061, 0x066B]),
+    "Syrc": ("syrc", [0x070F],
+             [0x0030, 0x0031, 0x0032, 0x0710, 0x0712, 0x0715, 0x0718, 0x0730, 0x200C, 0x034F],
+             [0x0020, 0x0700, 0x002E, 0x0061]),
+}
+WORD_GC = {"Cn", "Co", "Lm", "Lo", "Mc", "Me", "Mn", "Nd", "Nl", "No", "Sc", "Sk", "Sm", "So"}     # is_word_category
+
+
+def is_default_ignorable_cp(c):
+    return (c in (0x00AD, 0x034F, 0x061C, 0x115F, 0x1160, 0x17B4, 0x17B5, 0x3164, 0xFEFF, 0xFFA0) or 0x180B <= c <= 0x180F
+            or 0x200B <= c <= 0x200F or 0x202A <= c <= 0x202E or 0x2060 <= c <= 0x206F or 0xFE00 <= c <= 0xFE0F
+            or 0xFFF0 <= c <= 0xFFF8 or 0x1D173 <= c <= 0x1D17A or 0xE0000 <= c <= 0xE0FFF)
+
+
+def is_word_char(ch):
+    import unicodedata
+    return ord(ch) not in PCM and (unicodedata.category(ch) in WORD_GC or is_default_ignorable_cp(ord(ch)))
+
+
+def stch_recipe(r):
+    """a fontbuild recipe for the Arabic shaper: one glyph per mark / word character / separator, 2-5 tile glyphs; feature
+    `stch` = MultipleSubst of every mark into 2-5 tiles (components 0, 2, 4 fixed; 1, 3 repeating); advances drawn so that
+    words are shorter, about as long as, or several times longer than the tiles; half of the fonts also have positional
+    forms (isol / init / medi / fina) for the joining letters, so joining flags mix with the stretch flags"""
+    script = r.choice(["Arab", "Arab", "Syrc"])
+    tag, marks, words, seps = STCH_SCRIPTS[script]
+    marks = r.sample(marks, r.range(1, min(3, len(marks))))
+    chars = marks + [c for c in words if not is_default_ignorable_cp(c)] + seps
+    cmap = {cp: 1 + j for j, cp in enumerate(chars)}
+    n = 1 + len(chars)
+    ntiles = r.range(2, 5)
+    tiles = list(range(n, n + ntiles)); n += ntiles
+    forms = {}
+    if r.chance(1, 2):
+        for cp in (0x0628, 0x0644, 0x0712):
+            if cp in cmap:
+                forms[cmap[cp]] = n; n += 1
+    adv = [0] * n
+    for cp, g in cmap.items():
+        adv[g] = r.choice([0, 100, 250]) if cp in marks else (0 if cp in (0x064E, 0x0730) else r.range(150, 700))
+    for g in tiles:
+        adv[g] = r.choice([0, 40, 90, 150, 300, 500]) if r.chance(1, 6) else r.range(40, 300)
+    for g in forms.values():
+        adv[g] = r.range(150, 700)
+    mg = sorted(cmap[m] for m in marks)
+    lookups = [{"type": 2, "flag": 0, "subtables": [{"coverage": mg, "sequences": [
+        [r.choice(tiles) for _ in range(r.range(2, 5))] for _ in mg]}]}]
+    feats = [{"tag": "stch", "lookups": [0]}]
+    if forms:
+        lookups.append({"type": 1, "flag": 0, "subtables": [{"format": 2, "coverage": sorted(forms),
+                                                             "subst": [forms[g] for g in sorted(forms)]}]})
+        for t in r.sample(["isol", "init", "medi", "fina"], r.range(1, 4)):
+            feats.append({"tag": t, "lookups": [1]})
+    scripts = [{"tag": tag, "default": {"required": None, "features": list(range(len(feats)))}, "langs": []}]
+    if script == "Arab" and r.chance(1, 2):
+        scripts[0]["tag"] = "DFLT"
+    rec = {"num_glyphs": n, "cmap": cmap, "advances": adv,
+           "gsub": {"scripts": scripts, "features": feats, "lookups": lookups}}
+    return rec, script, marks
+
+
+def _stch_group(fid, reg, font, script, marks, words, seps, recipe=None):
+    c = SynthCase()
+    c.name, c.font, c.index, c.text = fid, font, 0, ""
+    c.dir, c.script, c.lang, c.flags, c.level, c.feats = None, script, None, 0, 0, []
+    c.pre, c.post, c.extra, c.opts = "", "", [], ""
+    return {"fid": fid, "reg": reg, "cases": [c], "aat": False, "alphabet": [chr(x) for x in words], "synthetic": recipe is not None,
+            "profile": "stch", "recipe": recipe, "stch_marks": [chr(x) for x in marks], "separators": [chr(x) for x in seps]}
+
+
+def stch_groups(r, count, prefix="T"):
+    """synthetic stch fonts + every OpenType font under tests/fonts whose GSUB names the `stch` feature (for those the marks
+    are all PCM characters of the script; which of them the font stretches is the font's business)"""
+    groups = []
+    while len(groups) < count:
+        rec, script, marks = stch_recipe(r)
+        try:
+            hx = fontbuild.hexfont(rec)
+        except fontbuild.FontBuildError:
+            continue
+        fid = f"{prefix}{len(groups)}"
+        _, _, words, seps = STCH_SCRIPTS[script]
+        groups.append(_stch_group(fid, f"font {fid} {hx}", f"synthetic:{fid}", script, marks, words, seps, rec))
+    k = 0
+    for dp, dn, fn in sorted(os.walk(os.path.join(vlib.REPO, "tests", "fonts"))):
+        for f in sorted(fn):
+            p = os.path.join(dp, f)
+            try:
+                data = open(p, "rb").read()
+            except OSError:
+                continue
+            if data[:4] == b"ttcf" or b"stch" not in data:
+                continue
+            tabs = sfnt_tables(p)
+            if "GSUB" not in tabs or "morx" in tabs:
+                continue
+            for script in sorted(STCH_SCRIPTS):
+                if STCH_SCRIPTS[script][0].encode() not in data:
+                    continue
+                fid = f"{prefix}f{k}"; k += 1
+                _, marks, words, seps = STCH_SCRIPTS[script]
+                groups.append(_stch_group(fid, f"fontfile {fid} {p} 0", p, script, marks, words, seps))
+    return groups
+
+
+def make_stch_shaping(r, g, flags):
+    """[separator] then 1-3 times: stretching mark (sometimes two), a word of 0-4 word characters, sometimes a separator and
+    a second word; the script's own direction (right to left) 3 in 4, else forced left to right"""
+    t = []
+    word = lambda a, b: [r.choice(g["alphabet"]) for _ in range(r.range(a, b))]
+    if r.chance(1, 3):
+        t += word(0, 2) + [r.choice(g["separators"])]
+    for _ in range(r.range(1, 3)):
+        t.append(r.choice(g["stch_marks"]))
+        if r.chance(1, 8):
+            t.append(r.choice(g["stch_marks"]))
+        t += word(0, 4)
+        if r.chance(1, 2):
+            t += [r.choice(g["separators"])] + word(0, 3)
+    t = t[:16]
+    s = Shaping()
+    s.g = g
+    s.case = g["cases"][0]
+    s.text = "".join(t)
+    s.clusters = rand_clusters(r, len(s.text), False)
+    s.req_dir = r.choice(["r", "r", "r", "l"])
+    s.dir = s.req_dir
+    s.script = s.case.script
+    s.flags = flags | r.choice([0, 3, 3, 3])
+    s.level = r.choice((0, 1))
+    s.extra = []
+    s.pre, s.post = "", ""
+    s.subset = None
+    s.line = None
+    return s
+
+
+def stch_known_class(s, kind="break", o=None):
+    """break: apply_stch flags everything the tiles depend on, so nothing is documented (any DIFF outside `reversed` is new);
+    concat: the class arabic-pcm-stch, decided from the cut and the difference"""
+    if shaped_reversed(s):
+        return "reversed"
+    if kind == "concat" and stch_attribution(s, o):
+        return "arabic-pcm-stch"
+    return None
+
+
+STCH_RULE = ("fonts with the `stch` feature (synthetic, tools/flagslib.py::stch_recipe: Arabic / Syriac script tags or DFLT, 1-3 stretching "
+             "marks of U+0600..0605, 06DD, 0890, 0891, 08E2 / U+070F multiplied into 2-5 fixed / repeating tiles, advances from 0 to "
+             "several tile widths, half with positional forms for the joining letters; plus every OpenType font under tests/fonts "
+             "whose GSUB names stch) x texts of [separator] (mark [mark] word-of-0-4 [separator word])x1-3 with words over digits, "
+             "non-joining / right-joining / dual-joining letters, a vowel mark, ZWNJ / ZWJ / CGJ and separators space, punctuation, "
+             "a cased letter (not word category) x direction r (3 in 4) / forced l x levels 0/1; ")
+
+
+# hook level: the real apply_stch on an injected buffer (`stch` request, harness/src/ops/stch.rs) vs the Lean model Stch.lean
+
+def stch_prim_groups(r, nfonts, per_font):
+    """request groups: a font that only fixes the advances of 12 glyphs, then buffers in BUFFER order: tile runs of 1-5 glyphs
+    (fixed / repeating by component parity, sometimes all of one kind), words of 0-4 word-category / default-ignorable glyphs
+    with advances 0..800 (rarely negative), non-word glyphs; clusters monotone in the buffer's direction (1 in 6: unordered),
+    masks with random flag and feature bits, levels 0-2, right-to-left and left-to-right buffers"""
+    groups = []
+    for f in range(nfonts):
+        n = 12
+        adv = [0] + [r.choice([0, 30, 60, 100, 150, 300, r.range(1, 700)]) for _ in range(n - 1)]
+        fid = f"ST{f}"
+        lines = [f"font {fid} " + fontbuild.hexfont({"num_glyphs": n, "cmap": {0x41: 1}, "advances": adv})]
+        for _ in range(per_font):
+            chars = []                        # logical order: (glyphs of one character)
+            for _ in range(r.range(1, 4)):
+                k = r.below(8)
+                if k < 4:
+                    nt = r.range(1, 5)
+                    mode = r.choice([0, 0, 0, 1, 2, 3])
+                    acts = [(2 if j % 2 else 1) if mode == 0 else (1 if mode == 1 else 2 if mode == 2 else r.range(1, 2)) for j in range(nt)]
+                    chars.append([(r.range(1, n - 1), a, 0, 0) for a in acts])
+                    for _ in range(r.range(0, 4)):
+                        chars.append([(r.range(1, n - 1), 0, r.choice([1, 1, 1, 2]),
+                                       r.choice([0, r.range(0, 800), r.range(0, 800), -r.range(1, 200) if r.chance(1, 8) else r.range(100, 400)]))])
+                elif k < 6:
+                    chars.append([(r.range(1, n - 1), 0, 0, r.range(0, 600))])
+                else:
+                    chars.append([(r.range(1, n - 1), 0, r.choice([1, 2]), r.range(0, 600))])
+            cl, c = [], r.below(3)
+            for _ in chars:
+                cl.append(c); c += r.choice([1, 1, 2, 0] if r.chance(1, 5) else [1, 1, 2])
+            if r.chance(1, 6):
+                cl = r.shuffle(cl)
+            rtl = r.chance(2, 3)
+            level = r.choice([0, 0, 1, 1, 2])
+            glyphs = []
+            for ch, c in zip(chars, cl):
+                for (g, a, kind, ad) in ch:
+                    m = r.choice([0, 0, 0, 1, 2, 3, 4, 7]) | (r.choice([0, 0x100, 0x80000000]))
+                    glyphs.append(f"{g}:{c}:{m}:{a}:{kind}:{ad}:{adv[g]}")
+            if rtl:
+                glyphs = glyphs[::-1]
+            lines.append(f"stch {fid} {1 if rtl else 0} {level} " + " ".join(glyphs))
+        groups.append(lines)
+    return groups
+
+
+def classify_stch(ln, out):
+    t = ln.split()
+    items = [x.split(":") for x in t[4:]]
+    ks = [f"dir:{'rtl' if t[2] == '1' else 'ltr'}", f"level:{t[3]}", "ok" if out.startswith("ok") else "other"]
+    if any(x[3] != "0" for x in items): ks.append("has-tiles")
+    if out.startswith("ok") and len(out.split()) - 1 > len(items): ks.append("tiles-repeated")
+    return ks
 
 
 # ------------------------------------------------------------------------------------------------
@@ -1207,7 +1653,7 @@ def make_fraction_shaping(r, g, flags, dirs=("l", "r", "l", "r", "t", "b"), leve
     return s
 
 
-def fraction_known_class(s, kind="break"):
+def fraction_known_class(s, kind="break", o=None):
     if s.g.get("synthetic"):
         return "reversed" if shaped_reversed(s) else None
-    return known_class(s, kind)
+    return known_class(s, kind, o)
